@@ -4,7 +4,7 @@
    information_schema tables and SHOW statements); proofs: Sys/C43CatalogProofs.v. *)
 From Coq Require Import List NArith Bool Arith.
 Import ListNotations.
-From GMS Require Import Sys.C43Catalog Sys.C43CatalogProofs.
+From GMS Require Import Sys.C43Catalog Sys.C43CatalogProofs Sys.C43CatalogHistory.
 Open Scope N_scope.
 
 (* TABLES / SHOW FULL TABLES list exactly the tables and views of the catalog, each with its type *)
@@ -29,19 +29,33 @@ Theorem C43_table_names_unique : forall h, NoDup (tnames (run h empty)).
 Proof. intros h. apply histories_keep_unique_names. constructor. Qed.
 Print Assumptions C43_table_names_unique.
 
-(* COLUMNS: the rows of a table are its columns in schema order with ordinal positions 1, 2, ...; every row carries
-   the table's name *)
+(* COLUMNS: the rows of a table are its VISIBLE columns in schema order; every row carries the table's name.  The
+   ordinal position is the position in the full schema: 1, 2, ... when the table has no hidden system column, but with a
+   gap after a functional index ((c + 1)) -- the faithful model refutes "ordinal positions are 1..n" *)
 Theorem C43_columns_exact : forall t,
-  map (fun r => (nth 1 r 0, nth 2 r 0)) (table_columns_rows t) = numbered 1 (colnames t) /\
+  map (fun r => (nth 1 r 0, nth 2 r 0)) (table_columns_rows t) = numbered_visible 1 (tcols t) /\
   forall r, In r (table_columns_rows t) -> nth 0 r 0 = tname t.
 Proof. intros t. split; [exact (columns_ordinals_exact t) | exact (columns_rows_belong_to_table t)]. Qed.
 Print Assumptions C43_columns_exact.
 
-(* STATISTICS / SHOW INDEXES: exactly one row per index (PRIMARY included) and key position *)
+Theorem C43_columns_ordinals_contiguous_partial : forall t, has_hidden t = false ->
+  map (fun r => (nth 1 r 0, nth 2 r 0)) (table_columns_rows t) = numbered 1 (colnames t).
+Proof. exact columns_ordinals_contiguous. Qed.
+Print Assumptions C43_columns_ordinals_contiguous_partial.
+(* _partial: tables without hidden system columns only *)
+
+Theorem C43_columns_ordinals_refuted :
+  option_map (fun t => map (fun r => (nth 1 r 0, nth 2 r 0)) (table_columns_rows t)) (find_tbl 1 (run h_gap empty))
+  = Some [(10, 1); (11, 2); (12, 4)].
+Proof. exact ordinal_gap. Qed.
+Print Assumptions C43_columns_ordinals_refuted.
+
+(* STATISTICS / SHOW INDEXES: exactly one row per index (PRIMARY included) and key position, with the prefix length and,
+   for a functional key part, the expression instead of a column name *)
 Theorem C43_statistics_exact : forall t r,
   In r (table_statistics_rows t) <->
   exists i k x, In i (all_idx t) /\ nth_error (icols i) k = Some x /\
-    r = [tname t; bN (negb (iuniq i)); iname i; 1 + N.of_nat k; x; col_nullable t x].
+    r = [tname t; bN (negb (iuniq i)); iname i; N.of_nat k + 1; col_shown t x; col_nullable t x; sub_part i k; col_expr t x].
 Proof. exact statistics_rows_exact. Qed.
 Print Assumptions C43_statistics_exact.
 
@@ -59,6 +73,59 @@ Print Assumptions C43_constraints_exact.
 Theorem C43_routines_exact : forall c, routines_rows c = map (fun p => [pname p; pval p]) (procs c).
 Proof. exact routines_rows_exact. Qed.
 Print Assumptions C43_routines_exact.
+
+(* The set model for every kind of object.  One statement: views / triggers / routines / foreign keys, and every table
+   with its columns, indexes and checks, are afterwards what the statement makes of what was there before (created ones
+   appended with the given definition, dropped ones removed, renamed ones renamed, everything else untouched -- also by
+   rejected statements, except the leaks spelled out in [fks_after], [idx_after], [chk_after]) *)
+Theorem C43_objects_after_statement : forall o c,
+  views (exec o c) = views_after o c /\ trigs (exec o c) = trigs_after o c /\
+  procs (exec o c) = procs_after o c /\ fks (exec o c) = fks_after o c.
+Proof. exact step_other_objects. Qed.
+Print Assumptions C43_objects_after_statement.
+
+Theorem C43_tables_after_statement : forall o c m, find_tbl m (exec o c) = tbl_after o c m.
+Proof. exact step_tables. Qed.
+Print Assumptions C43_tables_after_statement.
+
+Theorem C43_columns_indexes_checks_after_statement : forall o c m,
+  option_map tcols (find_tbl m (exec o c)) = cols_after o c m /\
+  option_map tidx (find_tbl m (exec o c)) = idx_after o c m /\
+  option_map tchk (find_tbl m (exec o c)) = chk_after o c m.
+Proof. intros o c m. split; [exact (step_columns o c m) | split; [exact (step_indexes o c m) | exact (step_checks o c m)]]. Qed.
+Print Assumptions C43_columns_indexes_checks_after_statement.
+
+(* ... and by induction over ALL histories (from the empty catalog): the objects after h ++ [o] are the set model's
+   image of the objects after h *)
+Theorem C43_objects_follow_history : forall h o,
+  views (run (h ++ [o]) empty) = views_after o (run h empty) /\
+  trigs (run (h ++ [o]) empty) = trigs_after o (run h empty) /\
+  procs (run (h ++ [o]) empty) = procs_after o (run h empty) /\
+  fks (run (h ++ [o]) empty) = fks_after o (run h empty).
+Proof. exact history_other_objects. Qed.
+Print Assumptions C43_objects_follow_history.
+
+Theorem C43_columns_indexes_checks_follow_history : forall h o m,
+  option_map tcols (find_tbl m (run (h ++ [o]) empty)) = cols_after o (run h empty) m /\
+  option_map tidx (find_tbl m (run (h ++ [o]) empty)) = idx_after o (run h empty) m /\
+  option_map tchk (find_tbl m (run (h ++ [o]) empty)) = chk_after o (run h empty) m.
+Proof. exact history_table_objects. Qed.
+Print Assumptions C43_columns_indexes_checks_follow_history.
+
+Theorem C43_history_starts_empty :
+  views (run [] empty) = [] /\ trigs (run [] empty) = [] /\ procs (run [] empty) = [] /\ fks (run [] empty) = [] /\
+  forall m, find_tbl m (run [] empty) = None.
+Proof. exact history_starts_empty. Qed.
+Print Assumptions C43_history_starts_empty.
+
+(* primary key part order: once the table has a functional index SHOW CREATE TABLE lists the key parts in COLUMN order,
+   STATISTICS / SHOW INDEXES / KEY_COLUMN_USAGE in key order *)
+Theorem C43_show_create_pk_order_refuted :
+  show_create_pk (run (removelast h_pkorder) empty) 1 = Some [11; 10] /\
+  show_create_pk (run h_pkorder empty) 1 = Some [10; 11] /\
+  option_map pk_cols (find_tbl 1 (run h_pkorder empty)) = Some [11; 10].
+Proof. exact pk_order_disagrees. Qed.
+Print Assumptions C43_show_create_pk_order_refuted.
 
 (* cascade: an accepted DROP TABLE removes the table, its foreign keys and its triggers (so no listing generated
    from the catalog mentions it any more) and nothing else *)
